@@ -18,6 +18,8 @@ import (
 	"cmp"
 	"log/slog"
 	"net/http"
+	"net/textproto"
+	"strings"
 	"time"
 )
 
@@ -70,7 +72,10 @@ func calculateCurrentAge(
 	date, requestTime, responseTime time.Time,
 ) *Age {
 	ageVal := time.Duration(0)
-	if v, valid := RawDeltaSeconds(h.Get("Age")).Value(); valid {
+	// A field with several members (two upstream caches, each adding one) counts with its first
+	// member (RFC 9111 §5.1); the rest is discarded, not the whole field.
+	ageField, _, _ := strings.Cut(h.Get("Age"), ",")
+	if v, valid := RawDeltaSeconds(textproto.TrimString(ageField)).Value(); valid {
 		// Saturated delta-seconds; capped so that adding delays cannot overflow.
 		ageVal = min(v, maxAgeValue)
 	}
